@@ -55,6 +55,8 @@ def d_move(rng, mol, opts, labels=None):
             m["labelmod"] = "someneg"
         elif r < 0.45:
             m["labelmod"] = pick(rng, ["gap", "rev"])
+        elif r < 0.62 and opts.get("pairs", False):
+            m["labelmod"] = "pairs"
     v = pick(rng, VETOES) if opts.get("vetoes", True) else None
     if v:
         m.update({"veto": v, "max_attempts": int(rng.integers(1, 4)), "salt": int(rng.integers(1000))})
